@@ -31,6 +31,7 @@ def kExact : Str := [101, 120, 97, 99, 116]  -- 'exact'
 def kFileColon : Str := [102, 105, 108, 101, 58]  -- 'file:'
 def kWarnColon : Str := [119, 97, 114, 110, 58]  -- 'warn:'
 def kTypeColon : Str := [116, 121, 112, 101, 58]  -- 'type:'
+def kCurrent : Str := [99, 117, 114, 114, 101, 110, 116]  -- 'current'
 def colon : Nat := 58
 
 /-- the pseudo tags registered by `Eups.__init__` (l.338) -/
@@ -534,28 +535,33 @@ def countColons (e : Str) : Nat := (e.filter (· == colon)).length
 
 /-- one tag of `_kindlySetPreferredTags`: `true` = accepted, `false` = "not okay" -/
 def kindlyOne (c : VroCfg) (t : Str) : Except Err Bool :=
-  if kFileColon.isPrefixOf t then throw .unsupported
+  if kFileColon.isPrefixOf t then .error .unsupported
   else if t.contains colon && t.getLast? != some colon then
     -- `re.search(r":.+$", t)`; `tbase, suffix = t.split(":")`
-    if countColons t != 1 then throw .valueError
-    else pure (c.recognized (splitColon0 t))
-  else if t.contains colon then pure false       -- trailing colon: parses to an unknown group
-  else pure (c.recognized t)
+    if countColons t != 1 then .error .valueError
+    else .ok (c.recognized (splitColon0 t))
+  else if t.contains colon then .ok false        -- trailing colon: parses to an unknown group
+  else .ok (c.recognized t)
 
 def kindlyGo (c : VroCfg) : List Str → Except Err (List Str × Bool)
-  | [] => pure ([], false)
-  | t :: rest => do
-    let ok ← kindlyOne c t
-    let (l, bad) ← kindlyGo c rest
-    pure (if ok then (t :: l, bad) else (l, true))
+  | [] => .ok ([], false)
+  | t :: rest =>
+    match kindlyOne c t with
+    | .error e => .error e
+    | .ok ok =>
+      match kindlyGo c rest with
+      | .error e => .error e
+      | .ok (l, bad) => .ok (if ok then (t :: l, bad) else (l, true))
 
 /-- `_kindlySetPreferredTags(tags)` in its non-strict form; returns the new `preferredTags`.
 When some tag is refused, `tags = list(filter(self.tags.isRecognized, tags))` also drops the
 qualified entries (`type:exact`, `warn:1`): they parse to a group that does not exist. -/
-def kindly (c : VroCfg) (tags : List Str) : Except Err (List Str) := do
-  let (ok, bad) ← kindlyGo c tags
-  let ok' := if bad then ok.filter (fun t => !t.contains colon) else ok
-  if ok'.isEmpty then pure c.prevPreferred else pure ok'
+def kindly (c : VroCfg) (tags : List Str) : Except Err (List Str) :=
+  match kindlyGo c tags with
+  | .error e => .error e
+  | .ok (ok, bad) =>
+    let ok' := if bad then ok.filter (fun t => !t.contains colon) else ok
+    if ok'.isEmpty then .ok c.prevPreferred else .ok ok'
 
 structure VroOut where
   vro : List Str
@@ -570,61 +576,87 @@ def setKey {α : Type} (k : Str) (v : α) : List (Str × α) → List (Str × α
   | [] => []
   | (k', v') :: rest => if k' == k then (k, v) :: rest else (k', v') :: setKey k v rest
 
-def selectVRO (c : VroCfg) (a : VroArgs) : Except Err VroOut := do
-  if c.userVRO && !a.tags.isEmpty then throw .runtimeError
-  let tags := if c.userVRO then [] else a.tags
+/-- l.3598-3646: which list of the dictionary is used, and how its in-place modification is stored
+back (`tags` = the -t tags in force) -/
+def chooseBase (c : VroCfg) (a : VroArgs) (tags : List Str) :
+    Except Err (List Str × (List Str → List (Str × VroVal))) :=
   let keys := c.vroDict.map (·.1)
   let vroTag0 : Option Str := if c.userVRO then some kCommandLine else tags.find? (fun t => keys.contains t)
-  let cmdTags := if tags.isEmpty then c.cmdTags else tags
   let vroTag1 : Str := match vroTag0 with
     | some t => t
     | none => if a.productDir then kPath else if a.versionName then kCommandLine else kDefault
-  let vroTag ← (if c.userVRO then pure vroTag1
-    else if keys.contains vroTag1 then pure vroTag1
-    else if keys.contains kDefault then pure kDefault
-    else throw .runtimeError : Except Err Str)
-  -- the list chosen, and how to store its in-place modification back into the dictionary
-  let (base, store) ← (match lookupKey vroTag c.vroDict with
-    | none => throw .keyError
-    | some (.flat l) => pure (l, fun l' => setKey vroTag (VroVal.flat l') c.vroDict)
+  let vroTag : Option Str :=
+    if c.userVRO then some vroTag1
+    else if keys.contains vroTag1 then some vroTag1
+    else if keys.contains kDefault then some kDefault
+    else none
+  match vroTag with
+  | none => .error .runtimeError
+  | some vroTag =>
+    match lookupKey vroTag c.vroDict with
+    | none => .error .keyError
+    | some (.flat l) => .ok (l, fun l' => setKey vroTag (VroVal.flat l') c.vroDict)
     | some (.byDbz d) =>
       match (match a.dbz with | some z => (lookupKey z d).map (fun l => (z, l)) | none => none) with
-      | some (z, l) => pure (l, fun l' => setKey vroTag (VroVal.byDbz (setKey z l' d)) c.vroDict)
+      | some (z, l) => .ok (l, fun l' => setKey vroTag (VroVal.byDbz (setKey z l' d)) c.vroDict)
       | none =>
         match lookupKey kDefault d with
-        | some l => pure (if a.versionName then kCommandLine :: l else l,
-                          fun l' => setKey vroTag (VroVal.byDbz (setKey kDefault l' d)) c.vroDict)
-        | none => throw .runtimeError : Except Err (List Str × (List Str → List (Str × VroVal))))
-  let v1 := if c.keep then kKeep :: base else base
-  -- -t tags: after the last `commandLine` / `type:*` entry
+        | some l => .ok (if a.versionName then kCommandLine :: l else l,
+                         fun l' => setKey vroTag (VroVal.byDbz (setKey kDefault l' d)) c.vroDict)
+        | none => .error .runtimeError
+
+/-- l.3648-3682: `keep` at the head, the -t tags behind the last `commandLine` / `type:*` entry, the
+-T tags behind the last version-type entry (`where` keeps its earlier value when there is none, and
+is unbound when there were no -t tags either) -/
+def placeTags (keep : Bool) (base tags postTags : List Str) : Except Err (List Str) :=
+  let v1 := if keep then kKeep :: base else base
   let whereT : Option Nat :=
     if tags.isEmpty then none
     else some ((afterLast (fun v => v == kCommandLine || isType v) 0 v1).getD 0)
   let v2 := match whereT with
     | some w => insertAt v1 w tags
     | none => v1
-  -- -T tags: after the last version-type entry; `where` keeps its earlier value (or none at all)
-  let v3 ← (if a.postTags.isEmpty then pure v2
-    else
-      match afterLast isVT 0 v2, whereT with
-      | some w, _ => pure (insertAt v2 w a.postTags)
-      | none, some w => pure (insertAt v2 w a.postTags)
-      | none, none => throw .unboundLocal : Except Err (List Str))
+  if postTags.isEmpty then .ok v2
+  else
+    match afterLast isVT 0 v2, whereT with
+    | some w, _ => .ok (insertAt v2 w postTags)
+    | none, some w => .ok (insertAt v2 w postTags)
+    | none, none => .error .unboundLocal
+
+/-- l.3683-3707: duplicates out, warnings merged, exact / inexact processing -/
+def cleanVro (c : VroCfg) (cmdTags : List Str) (inexact : Bool) (v3 : List Str) : List Str :=
   let v4 := mergeWarnings none (dedupe [] v3)
-  let v5 := if c.userVRO then v4 else
+  if c.userVRO then v4
+  else
     let x := if c.exact then makeVroExact c cmdTags v4 else v4
-    if a.inexact then x.filter (· != kTypeExact) else x
-  let pref ← kindly c v5
-  -- `findProductFromVRO("")` runs the `type:*` entries: `type:exact` switches exact mode on; the
-  -- rewrite of `_vro` it triggers is overwritten by `self._vro = self.preferredTags`
-  pure { vro := pref, exact := c.exact || pref.contains kTypeExact, cmdTags := cmdTags, dict' := store v3 }
+    if inexact then x.filter (· != kTypeExact) else x
+
+def selectVRO (c : VroCfg) (a : VroArgs) : Except Err VroOut :=
+  if c.userVRO && !a.tags.isEmpty then .error .runtimeError
+  else
+    let tags := if c.userVRO then [] else a.tags
+    let cmdTags := if tags.isEmpty then c.cmdTags else tags
+    match chooseBase c a tags with
+    | .error e => .error e
+    | .ok (base, store) =>
+      match placeTags c.keep base tags a.postTags with
+      | .error e => .error e
+      | .ok v3 =>
+        match kindly c (cleanVro c cmdTags a.inexact v3) with
+        | .error e => .error e
+        | .ok pref =>
+          -- `findProductFromVRO("")` runs the `type:*` entries: `type:exact` switches exact mode on; the
+          -- rewrite of `_vro` it triggers is overwritten by `self._vro = self.preferredTags`
+          .ok { vro := pref, exact := c.exact || pref.contains kTypeExact, cmdTags := cmdTags, dict' := store v3 }
 
 /-- `eups vro [-t..] [-T..] product [version]`: `EupsCmd.createEups` has already called
 `selectVRO(tag, productDir, None, dbz)` on the instance before `VroCmd.execute` calls it with all
 the arguments; the second call sees the state the first one left. -/
-def selectVROTwice (c : VroCfg) (a : VroArgs) : Except Err VroOut := do
-  let o1 ← selectVRO c { a with versionName := false, inexact := false, postTags := [] }
-  selectVRO { c with vroDict := o1.dict', exact := o1.exact, cmdTags := o1.cmdTags, prevPreferred := o1.vro } a
+def selectVROTwice (c : VroCfg) (a : VroArgs) : Except Err VroOut :=
+  match selectVRO c { a with versionName := false, inexact := false, postTags := [] } with
+  | .error e => .error e
+  | .ok o1 =>
+    selectVRO { c with vroDict := o1.dict', exact := o1.exact, cmdTags := o1.cmdTags, prevPreferred := o1.vro } a
 
 /-! ## a small concrete order for the correspondence runs and the examples
 
